@@ -245,14 +245,15 @@ def imagPart (radix : Nat) (x : Text) : Option RealLit :=
   else if x == ['-'] then some (.int (-1))
   else parseReal radix x
 
-/-- `parse_number(s, None)` -/
-def parseNumber (s0 : Text) : Option NumLit :=
-  let (s, radix) : Text × Nat := match s0 with
-    | '#' :: 'x' :: r => (r, 16) | '#' :: 'X' :: r => (r, 16)
-    | '#' :: 'd' :: r => (r, 10) | '#' :: 'D' :: r => (r, 10)
-    | '#' :: 'o' :: r => (r, 8) | '#' :: 'O' :: r => (r, 8)
-    | '#' :: 'b' :: r => (r, 2) | '#' :: 'B' :: r => (r, 2)
-    | r => (r, 10)
+/-- the radix prefix `#x #d #o #b` (either case) of a number literal -/
+def radixPrefix : Text → Text × Nat
+  | '#' :: 'x' :: r => (r, 16) | '#' :: 'X' :: r => (r, 16)
+  | '#' :: 'd' :: r => (r, 10) | '#' :: 'D' :: r => (r, 10)
+  | '#' :: 'o' :: r => (r, 8) | '#' :: 'O' :: r => (r, 8)
+  | '#' :: 'b' :: r => (r, 2) | '#' :: 'B' :: r => (r, 2)
+  | r => (r, 10)
+
+def parseNumberBody (radix : Nat) (s : Text) : Option NumLit :=
   if s.contains '@' then
     let (a, b) := s.span (· != '@')
     match parseReal radix a, parseReal radix (b.drop 1) with
@@ -270,6 +271,10 @@ def parseNumber (s0 : Text) : Option NumLit :=
       | some r, some i => some (.complex r i)
       | _, _ => none
     | _ => none
+
+/-- `parse_number(s, None)` -/
+def parseNumber (s0 : Text) : Option NumLit :=
+  parseNumberBody (radixPrefix s0).2 (radixPrefix s0).1
 
 def zeroDen : RealLit → Bool
   | .rat _ d => d == 0
